@@ -186,6 +186,14 @@ class ModelReplay:
             if x:
                 self.expect(p, "popen", "sbatch")
                 self.step(p)
+        elif name in ("NodeSetup", "NodeTeardown", "Teardown"):
+            cmd = {"NodeSetup": "vnsetup", "NodeTeardown": "vnteardown", "Teardown": "vteardown"}[name]
+            guard = 0
+            while name == "NodeTeardown" and parked(p) == ("sleep",) and guard < 5:
+                self.step(p)          # the last sleep of JobQueue.wait after the final poll
+                guard += 1
+            self.expect(p, "popen", cmd)
+            self.step(p)
         elif name == "NodeEnd":
             self.expect(p, "wait")
             self.step(p)
@@ -295,6 +303,8 @@ def norm(e, idmap):
         return [k, e["pid"]]
     if k == "scancel":
         return ["scancel", e["b"]]
+    if k == "hook":
+        return ["hook", e["which"], e["b"], e["envok"], e["grp"], sorted(e["rows"]), e["live"], e["rc"]]
     return None
 
 
